@@ -443,6 +443,10 @@ func (s *Schema) compile() error {
 		if err := s.load(); err != nil {
 			return err
 		}
+		// The types an added type knows - the parents of its "allOf" rules
+		// among them - have to be known before those rules are compiled; the
+		// compilation hands down further types, which are taken over after it.
+		loader.AddUnnamedTypes(s.inner)
 		loader.CompileAllOf(s.inner)
 		loader.AddUnnamedTypes(s.inner)
 		checker.CheckRootSchema(s.inner)
